@@ -10,7 +10,7 @@ for f in sorted(glob.glob(os.path.join(V, "seeded", "*", "meta.json"))):
     needs = re.sub(r"\s+", " ", m.get("needs", ""))[:200]
     res = "; ".join("%s %s" % (c["property"], c["result"].split(";")[0]) for c in m.get("checks_run", []))
     valid = m.get("confirmed_by_me", {}).get("valid")
-    rows.append("| %s | %s | %s | %s | %s |" % (sid, summ.replace("|", "/"), needs.replace("|", "/"), "yes" if valid else "NO", res.replace("|", "/")))
+    rows.append("| %s | %s | %s | %s | %s |" % (sid, summ.replace("|", "/"), needs.replace("|", "/"), ("n/a (correct change)" if sid.startswith("benign") else "yes" if valid else "NO"), res.replace("|", "/")))
 table = ("<!-- SEEDED-TABLE-BEGIN -->\n| id | change | needs | confirmed (suite passes, demo fails with / passes without) | checks run -> result |\n"
          "|----|--------|-------|-----|-----|\n" + "\n".join(rows) + "\n<!-- SEEDED-TABLE-END -->")
 p = os.path.join(V, "DESIGN.md")
